@@ -446,9 +446,19 @@ func resolveRoles(p *Prog) *Roles {
 	if r.Reaper != nil {
 		r.SpawnReaper = r.Reaper.Parent
 	}
-	r.Listener = r.one("context listener goroutine (literal receiving ctx.Done())", listeners)
-	if r.Listener != nil {
+	// a context listener is optional; callbacks registered with context.AfterFunc count as listeners too
+	for _, cs := range p.allCalls(false) {
+		if cs.Callee.Key == "context.AfterFunc" && cs.In.Pkg.PkgPath == modPath && len(cs.Call.Args) == 2 {
+			if lit, ok := ast.Unparen(cs.Call.Args[1]).(*ast.FuncLit); ok {
+				listeners = appendUnique(listeners, p.byLit[lit])
+			}
+		}
+	}
+	if len(listeners) == 1 {
+		r.Listener = listeners[0]
 		r.SpawnListen = r.Listener.Parent
+	} else if len(listeners) > 1 {
+		r.one("context listener (literal receiving ctx.Done() or passed to context.AfterFunc)", listeners)
 	}
 	// freeNode: called from the completion callback and releases the node
 	if r.Completion != nil {
@@ -493,9 +503,29 @@ func resolveRoles(p *Prog) *Roles {
 			return true
 		})
 	}
-	if r.FInflight == "" {
-		// fall back: the atomic field incremented by the step
-		r.problem("UNRESOLVED role=in-flight counter / limit (no `a.Load() < b.Load()` in the dispatcher loop)")
+	// by behaviour (robust against how the dispatcher's guard is written): the in-flight counter is the atomic
+	// field of the worker that the completion callback lowers; the limit is the one TunePool stores
+	wprefix := qualTypeName(r.WorkerT) + "."
+	if r.Completion != nil {
+		for _, cs := range p.calls(r.Completion) {
+			if fk, m := atomicOp(r.Completion.Info(), cs.Call); m == "Add" && strings.HasPrefix(fk, wprefix) && len(cs.Call.Args) == 1 {
+				if tv := r.Completion.Info().Types[cs.Call.Args[0]]; tv.Value == nil || tv.Value.ExactString() != "1" {
+					r.FInflight = fk
+				}
+			}
+		}
+	}
+	for _, f := range p.pkgFuncs(modPath) {
+		if f.Obj != nil && f.Obj.Name() == "TunePool" && f.Decl.Recv != nil {
+			for _, cs := range p.calls(f) {
+				if fk, m := atomicOp(f.Info(), cs.Call); m == "Store" && strings.HasPrefix(fk, wprefix) && fk != r.FStatus {
+					r.FLimit = fk
+				}
+			}
+		}
+	}
+	if r.FInflight == "" || r.FLimit == "" {
+		r.problem("UNRESOLVED role=in-flight counter / limit (the completion callback lowers no atomic worker field, or TunePool stores none)")
 	}
 	// worker status: the atomic field switched on by the exported Status()
 	for _, f := range p.pkgFuncs(modPath) {
